@@ -419,6 +419,9 @@ def r_disarm(prog, R):
         if "resp_cookie" in t or "req_cookie" in t or "memcmp" in t:
             continue
         extra.append(("" if p3 else "!") + t)
+    # ... and by nothing more than what guards the SUPPORTED store next to it (a condition on the cookie's *value* is an extra guard)
+    sb0, si0, _ = stores[0]
+    extra += [("" if p3 else "!") + render(c3) for c3, p3 in guard_delta(mf, (sb0.id, si0), (cb.id, ci))]
     if extra:
         r.viol("timer cleared whenever a server cookie arrives", f.name, f.loc(cc["ln"]), "unsupported_ts is cleared only when %s: after one dropped cookie-less reply the regression timer stays armed although valid cookies keep arriving, and 120 s later the whole cookie state is thrown away" % extra)
     else:
